@@ -98,6 +98,15 @@ Corollary from_dict_build ds r :
   FromDict.from_dict ds = FromDict.FOk r -> DagModel.build (dag_of_defs (sdefs ds)) = DagModel.Ok r.
 Proof. intros H. now apply from_dict_ok_iff in H. Qed.
 
+Theorem from_dict_is_build_of_state_definitions ds :
+  (forall g, FromDict.direct_ancestors ds = Some g -> dag_of_defs (sdefs ds) = g) /\
+  (~ FromDict.bad_signature ds -> FromDict.direct_ancestors ds = Some (dag_of_defs (sdefs ds))) /\
+  (forall r, FromDict.from_dict ds = FromDict.FOk r <->
+             ~ FromDict.bad_signature ds /\ DagModel.build (dag_of_defs (sdefs ds)) = DagModel.Ok r).
+Proof.
+  split; [exact (dag_of_sdefs ds)|]. split; [exact (direct_ancestors_is_dag_of_sdefs ds) | exact (from_dict_ok_iff ds)].
+Qed.
+
 (** * (2) the State graph from the definitions *)
 Section Graph.
 Variable ds : list FromDict.vdef.
@@ -145,6 +154,20 @@ Qed.
 
 End Graph.
 End Sdefs.
+
+Theorem graph_from_definitions_wf_parents (V : Type) hv ax fs (ds : list FromDict.vdef) (r : DagModel.dag) (v0 : V) :
+  FromDict.from_dict ds = FromDict.FOk r ->
+  WF (graph_from_definitions V hv ax fs ds r v0) /\
+  gn (graph_from_definitions V hv ax fs ds r v0) = length ds /\
+  forall k p, k < length ds ->
+    (In p (parents (graph_from_definitions V hv ax fs ds r v0) k) <->
+     exists q, FromDict.is_param_of ds q (nth k (DagModel.order r) 0) /\ p = index_of q (DagModel.order r)).
+Proof.
+  intros H.
+  split; [exact (graph_from_definitions_WF V hv ax fs ds r v0 H)|].
+  split; [exact (gn_from_definitions V hv ax fs ds r v0 H)|].
+  exact (parents_are_named_parameters V hv ax fs ds r v0 H).
+Qed.
 
 (** * End to end: from the definitions WITH THEIR FUNCTION SIGNATURES to every read of every history.
     The only hypothesis on the graph side is that [from_dict] accepted the definitions. *)
